@@ -34,7 +34,7 @@ ASSUMPTIONS = ['golden = the same call evaluated in a fresh interpreter immediat
                'nothing else executed', 'CPython GIL: the interleavings explored are those the switch interval and the injected yields '
                'produce (counted in the evidence), not all interleavings', 'writes that bypass __setattr__ (object.__setattr__, '
                '__dict__ surgery) are seen only by the snapshots']
-REQUIRED_COUNTERS = ['histories', 'threaded_histories', 'calls_with_covariance', 'repeated_identical_calls', 'catalogue_snapshots',
+REQUIRED_COUNTERS = ['histories', 'threaded_histories', 'interleaved_histories', 'calls_with_covariance', 'repeated_identical_calls', 'catalogue_snapshots',
                      'mutable_arguments_checked', 'context_switches_observed']
 N = {'quick': (20, 5, 90), 'thorough': (190, 50, 300)}       # histories, threaded histories, pool size   (per shard)
 SHARDS = {'quick': 16, 'thorough': 32}
@@ -529,8 +529,8 @@ def fn_of(spec):
     return spec['fn']
 
 
-def check_history(ns, ctx, bar, pool, gold, idxs, threads=0, inj=None):
-    mode = 'threaded' if threads else 'sequential'
+def check_history(ns, ctx, bar, pool, gold, idxs, threads=0, inj=None, interleave=None):
+    mode = 'threaded' if threads else ('interleaved' if interleave else 'sequential')
     snap0 = bar.snapshot(ns)
     ctx.count('catalogue_snapshots')
     bar.take()
@@ -538,7 +538,13 @@ def check_history(ns, ctx, bar, pool, gold, idxs, threads=0, inj=None):
 
     def work(positions):
         for p in positions:
-            results[p] = run_call(ns, pool[idxs[p]])
+            if interleave:
+                # a second thread makes another call of the pool (same function when the pool has one) while this call
+                # waits at its k-th statement boundary inside the library: a chosen schedule instead of a hoped-for one
+                k, tw = interleave[p]
+                results[p] = core.interleaved(ctx, k, lambda: run_call(ns, tw), lambda: run_call(ns, pool[idxs[p]]))
+            else:
+                results[p] = run_call(ns, pool[idxs[p]])
     if threads:
         parts = [list(range(i, len(idxs), threads)) for i in range(threads)]
         old = sys.getswitchinterval()
@@ -558,6 +564,8 @@ def check_history(ns, ctx, bar, pool, gold, idxs, threads=0, inj=None):
     else:
         work(range(len(idxs)))
     case = {'pool_indices': idxs, 'threads': threads, 'calls': [pool[i] for i in idxs][:60]}
+    if interleave:
+        case['interleave'] = [list(x) for x in interleave][:60]
     seen = set()
     for pos, i in enumerate(idxs):
         ctx.judged()
@@ -610,6 +618,20 @@ def run_shard(spec, ctx):
         if h < 1:
             ctx.sample({'history_of': [pool[i]['fn'] for i in idxs[:12]], 'length': n})
         check_history(ns, ctx, bar, pool, gold, idxs)
+    # interleaved: every call of a sequential history gets a twin call (same function, other arguments, when the pool has
+    # one) at a statement boundary of its own
+    by_fn = {}
+    for i, p in enumerate(pool):
+        by_fn.setdefault(fn_of(p), []).append(i)
+    for h in range(max(4, spec['histories'])):
+        n = rnd.randint(4, 40)
+        idxs = [rnd.randrange(len(pool)) for _ in range(n)]
+        plan_ = []
+        for i in idxs:
+            same = [j for j in by_fn[fn_of(pool[i])] if j != i]
+            plan_.append((rnd.randint(1, 999), pool[rnd.choice(same) if same and rnd.random() < 0.8 else rnd.randrange(len(pool))]))
+        ctx.count('interleaved_histories')
+        check_history(ns, ctx, bar, pool, gold, idxs, interleave=plan_)
     # threaded: weight the transformation calls, which share the catalogue objects
     tf = [i for i, p in enumerate(pool) if p['fn'].startswith('transform.') or p['fn'].startswith('op:')]
     for h in range(spec['threaded']):
@@ -636,7 +658,11 @@ def replay(case, ctx):
     pool = h['calls']
     gold = golden(pool)
     inj = YieldInjector(ns) if h.get('threads') else None
-    check_history(ns, ctx, bar, pool, gold, list(range(len(pool))), threads=h.get('threads', 0), inj=inj)
+    il = [tuple(x) for x in h['interleave']] if h.get('interleave') else None
+    if il and len(il) < len(pool):
+        pool = pool[:len(il)]
+        gold = gold[:len(il)]
+    check_history(ns, ctx, bar, pool, gold, list(range(len(pool))), threads=h.get('threads', 0), inj=inj, interleave=il)
 
 
 if __name__ == '__main__':
